@@ -13,6 +13,12 @@ import (
 )
 
 func rewriteMetadata(p string, stat *types.Stat) error {
+	if len(stat.Xattrs) > 0 && os.FileMode(stat.Mode)&os.ModeSymlink == 0 {
+		// An unprivileged owner needs write permission on the inode to set
+		// user.* xattrs; a read-only entry was created with its final mode.
+		// The final mode is applied below.
+		os.Chmod(p, os.FileMode(stat.Mode).Perm()|0200)
+	}
 	for key, value := range stat.Xattrs {
 		sysx.LSetxattr(p, key, value, 0)
 	}
